@@ -383,7 +383,7 @@ def check_c04(ctx):
                          reps=1, names=sd['names'], spell='varied'),
                    Batch(G_N4_S_WF, ALL_LAYOUTS, four, [sd['rot']], reps=1, names='special', spell=sd['spell']),
                    Batch(G_N3_D3_WF, ['sibling+subdir', 'parent+prefixdir'], four, [sd['rot']], reps=1),
-                   Batch(G_N3_ALL_WF, ['sibling', 'subdir', 'remote'], four, [0, 1, 2, 3], reps=1, ids='abs,relfile,frag,reldir', watchdog='4s'),
+                   Batch(G_N3_ALL_WF, ['sibling', 'subdir', 'remote'], four, [0, 1, 2, 3], reps=1, ids='abs,relfile,frag,reldir,absodd,badpct,badhost,colon', watchdog='4s'),
                    Batch(('random', 16, 4, 4000, True), ['sibling+subdir+parent', 'remote+prefixdir+otherdir'], four, [sd['rot']], reps=1, spell='varied'),
                    Batch(('random', 40, 6, 500, True), ['sibling+subdir+parent+otherdir+remote'], four, [sd['rot']], reps=1, names='special', spell='varied'),
                    Batch(G_N3_ALL_ANY, ['sibling', 'subdir'], four, [0, 1], reps=1, oddtargets=True),
@@ -400,6 +400,7 @@ def check_c04(ctx):
                          reps=1, names=sd['names'], spell=sd['spell']),
                    Batch(G_N4_S_WF, [ALL_LAYOUTS[(ctx.seed + 3) % len(ALL_LAYOUTS)]], ['000', '110'], [sd['rot']], reps=1),
                    Batch(G_N3_ALL_WF, ['sibling'], ['000', '010'], sorted({ctx.seed % 4, 3}), reps=1, ids='abs,relfile,frag,reldir', watchdog='4s'),
+                   Batch(G_N3_ALL_WF, ['sibling', 'remote'], ['000', '110'], [sd['rot'], (sd['rot'] + 1) % 12], reps=1, ids='absodd,badpct,badhost,colon', watchdog='4s'),
                    Batch(('random', 14, 3, 300, True), ['sibling+subdir', 'parent+remote'], four, [sd['rot']], reps=1, spell='varied'),
                    Batch(G_N3_ALL_ANY, ['sibling'], ['000', '010'], [sd['rot']], reps=1, oddtargets=True),
                    Batch(G_N3_ALL_WF, ['sibling'], ['000'], [sd['rot']], reps=1, entry=RELBASE_ENTRIES),
@@ -415,6 +416,9 @@ def check_c04(ctx):
         mcs += [(('random', 16, 4, 400, True), False, False, 'rand16_strict_full'), (('random', 40, 6, 20, True), True, False, 'rand40_cont_full')]
     rep = run_batches(ctx, batches, ['c04', 'c04work'], mcs, nontrivial=lambda o, v: v['cyclic'] or not v['wf'],
                       sample=lambda o, v: not v['wf'])
+    # the pool of single-schema calls (self references through an id in unusual spelling, refused / undecodable / null
+    # documents ...), alone and in sequences: a call that kills or hangs the process is reported as a failed step
+    cache_sequences(ctx, rep)
     return rep.finish(
         'model_checking',
         'TLC enumerates EVERY reference graph over N<=3 nodes of all element kinds (including pure $ref cycles among '
@@ -713,7 +717,7 @@ def cache_sequences(ctx, rep):
     cases = ctx.path('cacheseq.ndjson')
     cfg = 'CONSTANTS\nMaxLen = %d\nMode = "gen"\nInFile = ""\nOutFile = "%s"\nSPECIFICATION Spec\nINVARIANT AnswersIndependent\nPROPERTY CacheMonotone\n' % (maxlen, cases)
     vlib.model_check(ctx, 'CacheSeq', cfg, 'seq_L%d' % maxlen, workers=2)
-    obsfiles = vlib.run_worker(ctx, 'cacheseq', cases, [], prefix='cseq', shards=8)
+    obsfiles = vlib.run_worker(ctx, 'cacheseq', cases, ['-watchdog', '20s'], prefix='cseq', shards=8)
     for o, v in vlib.run_oracle(ctx, 'CacheSeq', obsfiles, consts={'MaxLen': str(maxlen), 'Mode': '"judge"'}, cfg_names=('InFile', 'OutFile')):
         rep.evaluations += 1
         if len(o['seq']) > 1 and o['mode'] == 'reuse':
